@@ -148,6 +148,20 @@ def build_index_item(item):
             return cls(arr, name=name)
         return cls([P.dec(l) for l in labels], name=name)
     py = [P.dec(l) for l in labels]
+    if item.get('lcls'):
+        # a date level: the class of the Index at each depth is part of the content (compare_class), the route is not
+        ctors = tuple(getattr(sf, c) for c in item['lcls'])
+        if item['route'] == 'from_index_items':
+            outer = []
+            for o, _ in py:
+                if o not in outer:
+                    outer.append(o)
+            ih = cls.from_index_items((o, ctors[1](np.array([i for oo, i in py if oo == o], dtype='datetime64[D]'))) for o in outer).rename(name)
+        else:
+            ih = cls.from_labels(py, name=name, index_constructors=ctors)
+        if item.get('read'):
+            ih.values, ih.loc_to_iloc(py[0])          # ordinary read-only use: the label table is materialised
+        return ih
     R, outer, inner, first = _hier_routes(labels)
     route = item['route'] if item['route'] in R else 'from_labels'
     if route == 'from_labels':
@@ -179,7 +193,22 @@ def gen_index_items(rng):
     early / late parent, one label dropped, name, class)'''
     name = rng.choice([['none'], ['s', 'nm']])
     r0 = rng.random()
-    if r0 < 0.15:
+    if r0 < 0.12:
+        # hierarchies with a date level: equal labels under different per-depth Index classes, read or not read before the comparison
+        outer = rng.sample([['s', 'x'], ['s', 'y']], rng.randint(1, 2))
+        days = [['d', 'D', 18000 + v] for v in sorted(rng.sample(range(10), rng.randint(1, 3)))]
+        labels = [['t', [o, d]] for o in outer for d in days]
+        items = []
+        for lc in (['Index', 'IndexDate'], ['Index', 'Index'], ['Index', 'IndexDate'], ['Index', 'Index']):
+            items.append({'kind': 'index', 'cls': 'IndexHierarchy', 'name': name, 'index': copy.deepcopy(labels), 'depth': 2, 'lcls': lc,
+                          'route': rng.choice(['from_labels', 'from_index_items']), 'read': rng.random() < 0.7})
+        m = copy.deepcopy(items[0])
+        m['index'][-1][1][1] = ['d', 'D', 18099]
+        items.append(m)
+        items.append(dict(copy.deepcopy(items[1]), cls='IndexHierarchyGO'))
+        rng.shuffle(items)
+        return items
+    if r0 < 0.24:
         # labels that hold a missing value (NaT in datetime labels, NaN in float labels): two missing labels at the same position are
         # equal exactly when skipna is requested; separately built indices, several classes
         if rng.random() < 0.6:
@@ -290,6 +319,8 @@ def main(ctx):
             items = gen_index_items(ctx.rng)
             objs = [build_index_item(it) for it in items]
             for it, o in zip(items, objs):
+                it.setdefault('lcls', [])
+                it.pop('read', None)
                 it['dt'] = [P.enc_dtype(o.values.dtype)] if it['depth'] == 1 else [P.enc_dtype(x) for x in o.dtypes.values]
             ctx.count('V_index_family')
         else:
